@@ -1060,10 +1060,8 @@ impl TwoFloat {
             if k == 0.0 {
                 r1
             } else {
-                Self {
-                    hi: mul_pow2(r1.hi, k as i32),
-                    lo: mul_pow2(r1.lo, k as i32),
-                }
+                // the scaled low word can round up to a half-ulp tie when it underflows
+                crate::arithmetic::fast_two_sum(mul_pow2(r1.hi, k as i32), mul_pow2(r1.lo, k as i32))
             }
         }
     }
